@@ -37,9 +37,10 @@ def _binds(nodes, name):
 
 def _within(nodes, line, col):
     for n in nodes:
-        if n.lineno <= line <= (n.end_lineno or n.lineno):
-            if (line, col) >= (n.lineno, n.col_offset) and (line, col) <= (n.end_lineno, n.end_col_offset):
-                return True
+        decs = getattr(n, 'decorator_list', None)
+        start = min((d.lineno, d.col_offset) for d in decs) if decs else (n.lineno, n.col_offset)
+        if start <= (line, col) <= (n.end_lineno, n.end_col_offset):
+            return True
     return False
 
 
@@ -50,10 +51,10 @@ def try_raise_point_case(tree, read):
     for t in ast.walk(tree):
         if not isinstance(t, ast.Try) or not t.handlers:
             continue
-        both = _is_m_call(t.body[0]) and _is_m_call(t.body[-1]) and len(t.body) > 1
+        both = _is_m_call(t.body[0]) and _is_m_call(t.body[-1])
         if both:
             continue
-        if not _binds(t.body, name):
+        if not _binds(t.body, name) and not any(_binds(h.body, name) for h in t.handlers):
             continue
         in_handler = any(_within(h.body, line, col) for h in t.handlers)
         in_final = _within(t.finalbody, line, col)
@@ -63,47 +64,62 @@ def try_raise_point_case(tree, read):
     return False
 
 
+def _start(n):
+    """first position of a statement, decorators included"""
+    decs = getattr(n, 'decorator_list', None)
+    if decs:
+        return min((d.lineno, d.col_offset) for d in decs)
+    return (n.lineno, n.col_offset)
+
+
 def _stmt_lists(node):
     for f in ('body', 'orelse', 'finalbody'):
         l = getattr(node, f, None)
         if isinstance(l, list) and l and isinstance(l[0], ast.stmt):
-            yield l
+            yield f, l
     for h in getattr(node, 'handlers', []) or []:
-        yield h.body
+        yield 'handler', h.body
+
+
+def _leaves(l):
+    """index of the first top-level statement of the list that leaves it (return/raise), or None"""
+    for i, st in enumerate(l):
+        if isinstance(st, (ast.Return, ast.Raise)):
+            return i
+    return None
 
 
 def terminated_branch_case(tree, read, kind, info):
-    """A branch of an if/try that ends in return/raise does not fall through, but supp still merges its
-    state into the join after the statement.  The read lies after that statement."""
-    line, col, name = read['line'], read['col'], read['name']
-    site = info.get('site')
+    """supp has no notion of a dead region: a statement list that leaves through return/raise still passes the
+    state that flows through it on - to the join after its compound statement, to the loop back edge, to the
+    handlers of its try - and statements after the return/raise are analysed as if reachable.
+    Recognised shapes: the read lies after a compound statement one of whose statement lists leaves (and the listed
+    binding, if any, is not after that statement); read and binding lie in a loop whose body leaves (dead back
+    edge); the binding lies in dead code; the binding lies in a try body that leaves and the read in its handlers."""
+    pos = (read['line'], read['col'])
+    site = tuple(info['site'][:2]) if info.get('site') else None
     for s in ast.walk(tree):
-        if isinstance(s, (ast.For, ast.While)) and isinstance(s.body[-1], (ast.Return, ast.Raise)):
-            # the loop body never reaches the back edge (nor, having run once, the else clause)
-            inside = (s.lineno, s.col_offset) <= (line, col) <= (s.end_lineno, s.end_col_offset)
-            if inside or (line, col) > (s.end_lineno, s.end_col_offset):
-                if kind == 'phantom-definition' and site and _within(s.body, site[0], site[1]):
-                    return True
-                if kind in ('never-bound-not-flagged',) and _binds(s.body, name):
-                    return True
-                if kind == 'undefined-marker-but-always-bound' and not _binds(s.body, name):
-                    return True
-        if not isinstance(s, (ast.If, ast.Try, ast.With)):
+        if not isinstance(s, (ast.If, ast.Try, ast.With, ast.For, ast.While, ast.FunctionDef)):
             continue
-        if (line, col) <= (s.end_lineno, s.end_col_offset):
-            continue
-        for l in _stmt_lists(s):
-            if not isinstance(l[-1], (ast.Return, ast.Raise)):
+        sstart, send = _start(s), (s.end_lineno, s.end_col_offset)
+        for field, l in _stmt_lists(s):
+            i = _leaves(l)
+            if i is None:
                 continue
-            if kind == 'phantom-definition':
-                if site and _within(l, site[0], site[1]):
-                    return True
-            elif kind == 'never-bound-not-flagged':
-                if _binds(l, name):
-                    return True
-            elif kind == 'undefined-marker-but-always-bound':
-                if not _binds(l, name):
-                    return True
+            lstart, lend = _start(l[0]), (l[-1].end_lineno, l[-1].end_col_offset)
+            dead = l[i + 1:]
+            if site and dead and _start(dead[0]) <= site <= lend:
+                return True                                          # a binding in dead code
+            if isinstance(s, ast.FunctionDef):
+                continue
+            if pos > send and (site is None or site <= send):
+                return True                                          # state flowing through a leaving list reaches the join
+            if isinstance(s, (ast.For, ast.While)) and field == 'body' and sstart <= pos <= send \
+                    and (site is None or sstart <= site <= send):
+                return True                                          # dead back edge
+            if isinstance(s, ast.Try) and field == 'body' and site and lstart <= site <= lend and not (lstart <= pos <= lend) \
+                    and sstart <= pos <= send:
+                return True                                          # the end of a leaving try body never reaches the handlers
     return False
 
 
